@@ -23,6 +23,22 @@ SPEC = {
 }
 
 
+ASIN_DEFINED = {"alpha", "beta", "betain", "betaout"}
+ACOS_DEFINED = {"tau", "theta", "ttheta"}
+
+
+def differs(k, a, b, tol=1e-6):
+    """angles (deg) differ by more than tol — except at the turning point of the defining asin/acos, where one ulp of the
+    sine/cosine is ~1e-6 deg of angle: there the sine/cosine itself is compared"""
+    if angdiff(a, b) <= tol:
+        return False
+    if k in ASIN_DEFINED and abs(math.sin(math.radians(a)) - math.sin(math.radians(b))) < 1e-12:
+        return False
+    if k in ACOS_DEFINED and abs(math.cos(math.radians(a)) - math.cos(math.radians(b))) < 1e-12:
+        return False
+    return True
+
+
 AXIS_VECS = [(1, 0, 0), (0, 1, 0), (0, 0, 1), (-1, 0, 0), (0, 0, -1), (1, 1, 0), (0, 1, 1)]
 
 
@@ -127,7 +143,7 @@ def oracle(ctx, widen=1):
             for k, val in va.items():
                 if k in skip or k not in pp or math.isnan(val):
                     continue
-                if angdiff(val, pp[k]) > 1e-6:
+                if differs(k, val, pp[k]):
                     bad = f"{k} = {val:.8f} but the geometric definition gives {pp[k]:.8f} (vectors x{k1}/x{k2}, frames {frames})"
                     break
             if bad:
@@ -137,7 +153,7 @@ def oracle(ctx, widen=1):
             else:
                 for k in va:
                     a, b = base[k], va[k]
-                    if math.isnan(a) != math.isnan(b) or (not math.isnan(a) and angdiff(a, b) > 1e-7):
+                    if math.isnan(a) != math.isnan(b) or (not math.isnan(a) and differs(k, a, b, 1e-7)):
                         bad = f"{k} changes from {a} to {b} when the reference vector is scaled by {k1} and the surface vector by {k2} (frames {frames})"
                         break
             if bad:
@@ -201,7 +217,7 @@ def oracle(ctx, widen=1):
             for k, val in va.items():
                 if k in skip or k not in pp or math.isnan(val):
                     continue
-                if angdiff(val, pp[k]) > 1e-6:
+                if differs(k, val, pp[k]):
                     bad = f"{k} = {val:.8f} but the geometric definition with the CURRENT UB and vectors gives {pp[k]:.8f}"
                     break
         if bad:
